@@ -235,6 +235,8 @@ func (s *c07Session) checkContact(ms *MetadataStore, pk []byte, where string, wi
 		back := ms.GetContactFromGroupPK(cg.PublicKey)
 		if back == nil || string(back.Pk) != string(pk) {
 			s.rep.Violate("C07/group-pk-lookup/"+where, "GetContactFromGroupPK does not map the contact group back to the contact", wit())
+		} else if string(back.PublicRendezvousSeed) != string(want.Seed) || string(back.Metadata) != string(want.Meta) {
+			s.rep.Violate("C07/group-pk-lookup-details/"+where, fmt.Sprintf("GetContactFromGroupPK reports seed %x / metadata %q, the contact entry has %x / %q", back.PublicRendezvousSeed, back.Metadata, want.Seed, want.Meta), wit())
 		}
 	}
 }
@@ -342,6 +344,20 @@ func (s *c07Session) runSeq(rng *rand.Rand, seq c07Seq) {
 			}
 			if meta.EventType != wantEv {
 				s.rep.Violate("C07/wrong-event/"+c07OpNames[op]+"/"+st.String(), fmt.Sprintf("appended %s, table says %s", meta.EventType, wantEv), wit())
+			}
+			// what was appended carries what the caller passed, nothing else (the reference below is fed from the log)
+			switch e := msg.(type) {
+			case *protocoltypes.AccountContactRequestOutgoingEnqueued:
+				if wantEv == protocoltypes.EventType_EventTypeAccountContactRequestOutgoingEnqueued &&
+					(string(e.GetContact().GetPk()) != string(a.pk) || string(e.GetContact().GetPublicRendezvousSeed()) != string(a.seed) ||
+						string(e.GetContact().GetMetadata()) != string(a.meta) || string(e.GetOwnMetadata()) != string(a.ownMeta)) {
+					s.rep.Violate("C07/appended-event-differs-from-arguments/enqueue", fmt.Sprintf("the enqueued event carries contact metadata %q / own metadata %q, the call passed %q / %q",
+						e.GetContact().GetMetadata(), e.GetOwnMetadata(), a.meta, a.ownMeta), wit())
+				}
+			case *protocoltypes.AccountContactRequestIncomingReceived:
+				if string(e.GetContactPk()) != string(a.pk) || string(e.GetContactRendezvousSeed()) != string(a.seed) || string(e.GetContactMetadata()) != string(a.meta) {
+					s.rep.Violate("C07/appended-event-differs-from-arguments/received", "the received event does not carry the contact the call passed", wit())
+				}
 			}
 			s.ref.applyEvent(meta.EventType, msg)
 			s.rep.Count("appends", 1)
